@@ -41,7 +41,8 @@ RULE = (
     "NextTime/PreviousTime/LinearTime/StepTime(step)/AvgOverTime(step)/SumOverTime(step, per_time True|False), incl. consumers "
     "finer than the source; static outputs read by static/ordinary inputs with a refused second publication; 2-3 "
     "compositions in one process sharing the spill directory; payload scalar / grid array / "
-    "masked array (fixed or flexible mask); slot_memory_limit in {None, -1, 0, k*nbytes, k*nbytes+-1 (k = 0..history), "
+    "masked array (fixed mask, flexible mask, mask varying between publications incl. EMPTY masks as nomask and as an explicit "
+    "all-False array, empty info mask); slot_memory_limit in {None, -1, 0, k*nbytes, k*nbytes+-1 (k = 0..history), "
     "huge}, optionally overridden per slot; non-trivial = some slot holds at least one spilled and at least one "
     "in-RAM entry during the run (or, for limit 0 / None sweeps, at least one spill resp. none); distinct by "
     "canonical case hash"
@@ -63,7 +64,11 @@ ASSUMPTIONS = [
 
 ADAPTERS = ["next", "prev", "linear", "step", "avg", "sum"]
 KINDS = ["direct"] + ADAPTERS
-PAYLOADS = ["scalar", "grid", "masked", "flexmask"]
+# masked: fixed info mask; flexmask: Mask.FLEX, always >= 2 masked cells; varmask / varmask2: Mask.FLEX with a mask that
+# varies between publications and is EMPTY for some of them (mask=False i.e. nomask, and an explicit all-False array;
+# varmask starts with an empty mask, varmask2 with a non-empty one); emptymask: explicit info mask without any masked cell
+PAYLOADS = ["scalar", "grid", "masked", "flexmask", "varmask", "varmask2", "emptymask"]
+MASKED_PAYLOADS = ["masked", "flexmask", "varmask", "varmask2", "emptymask"]
 STEP_PARAMS = [[1, 2], [0, 1], [1, 1], [1, 4], [3, 4]]
 HUGE = 10**12
 MASK = np.array([[True, False], [False, False], [False, True]])
@@ -174,6 +179,12 @@ def _corpus():
     # F5: masked payloads
     cs.append(_simple("direct", "masked", 0))
     cs.append(_simple("sum", "flexmask", 48))
+    # seeded C10_f: masked payloads whose mask is EMPTY at a spilled publication (nomask / explicit all-False array)
+    cs.append(_simple("direct", "varmask", 0))
+    cs.append(_simple("linear", "varmask2", 0))
+    cs.append(_simple("avg", "varmask2", 48, src=1, dst=4, end=12))
+    cs.append(_simple("next", "emptymask", 0))
+    cs.append(_static("varmask", 0, sin="both"))
     # tests/core/test_sdk.py::test_memory_limit-like: limit crossed mid run
     cs.append(_simple("direct", "grid", 2 * 48, src=1, dst=5, end=15))
     # F9 (found by this check): SumOverTime(per_time=True) reloads spilled entries with its OUTPUT units
@@ -350,7 +361,8 @@ def _payload_tools(run):
         kw = dict(grid=fm.NoGrid(), units="m")
     else:
         kw = dict(grid=fm.UniformGrid((4, 3)), units="m",
-                  mask=(MASK if payload == "masked" else fm.Mask.FLEX))
+                  mask=(MASK if payload == "masked" else np.zeros((3, 2), dtype=bool) if payload == "emptymask"
+                        else fm.Mask.FLEX))
     counter = [0]
 
     def value(i):
@@ -363,6 +375,16 @@ def _payload_tools(run):
             m = MASK.copy()
             m[1, i % 2] = True
             return np.ma.array(d, mask=m)
+        if payload in ("varmask", "varmask2"):
+            ph = (i + (1 if payload == "varmask2" else 0)) % 4
+            if ph == 0:
+                return np.ma.array(d, mask=False)  # nomask
+            if ph == 2:
+                return np.ma.array(d, mask=np.zeros((3, 2), dtype=bool))  # explicit all-False mask
+            m = MASK.copy() if ph == 1 else ~MASK
+            return np.ma.array(d, mask=m)
+        if payload == "emptymask" and i % 2:
+            return np.ma.array(d, mask=np.zeros((3, 2), dtype=bool))
         return d
 
     def gen(_t=None):
@@ -865,7 +887,7 @@ classifiers = {
     # classifiers of the repaired findings (status "fixed" entries suppress nothing)
     "single_entry_spilled_linear_step": _has_kind(["linear", "step"]),
     "adapter_spill_files_left": _has_kind(ADAPTERS),
-    "masked_payload_spill": lambda case, obs, failure: any(r["payload"] in ("masked", "flexmask") for r in _runs(case)),
+    "masked_payload_spill": lambda case, obs, failure: any(r["payload"] in MASKED_PAYLOADS for r in _runs(case)),
 }
 
 
